@@ -121,7 +121,11 @@ def run(ctx):
             if len(rets) != 1 or len(r.results) != 1:
                 probs.append("not a single straight-line path")
             else:
-                v = r.norm.n(r.interp.argval(rets[0].path, rets[0].ret))
+                raw = rets[0].ret
+                if isinstance(raw, tuple) and raw and raw[0] == "call":
+                    # comparisons of references compare the referents: look through the pointers
+                    raw = ("call", raw[1], tuple(r.interp.argval(rets[0].path, a) for a in raw[2]))
+                v = r.norm.n(r.interp.argval(rets[0].path, raw))
                 if wv is not None and v != wv:
                     probs.append(f"computes {fmt_n(v)[:200]}, expected {fmt_n(wv)[:200]}")
                 if wv is None:
